@@ -843,3 +843,12 @@ func (e *Engine) NewZeroPtr(p *Path, t types.Type) Value {
 	o.Cell = e.zero(p, pt.Elem())
 	return &Ptr{Obj: o, Field: -1, Index: -1}
 }
+
+// CallFn interprets fn on the given path (used by harnesses to run constructors).
+func (e *Engine) CallFn(p *Path, fn *ssa.Function, args []Value) []Value {
+	out := e.call(p, fn, args, 1)
+	if len(out) == 0 {
+		return []Value{&TopV{"constructor failed"}}
+	}
+	return out
+}
